@@ -76,14 +76,34 @@ func secondState(c *core.Case, ref *isa.Result) (*isa.State, *isa.Result, bool) 
 	}
 	r := rng.New(uint64(uint32(c.Aux[0])) | uint64(uint32(c.Aux[1]))<<32)
 	s2 := c.Init.Clone()
-	for i := range s2.Mem {
-		if r.Chance(1, 2) {
-			s2.Mem[i] = int8(r.U64())
+	// new data values: arbitrary, or (half of the runs) values that look like
+	// addresses of this memory, the kind a value-as-address slip would react to
+	addrLike := r.Bool()
+	val := func() int32 {
+		if addrLike {
+			return int32(4 * r.Intn(len(s2.Mem)/4+1))
+		}
+		return r.I32()
+	}
+	if addrLike {
+		for i := 0; i+3 < len(s2.Mem); i += 4 {
+			if r.Chance(1, 2) {
+				v := val()
+				for k := 0; k < 4; k++ {
+					s2.Mem[i+k] = int8(uint32(v) >> (8 * uint(k)))
+				}
+			}
+		}
+	} else {
+		for i := range s2.Mem {
+			if r.Chance(1, 2) {
+				s2.Mem[i] = int8(r.U64())
+			}
 		}
 	}
 	for reg := isa.Reg(1); reg < isa.NumRegs; reg++ {
 		if r.Chance(1, 2) {
-			s2.Regs[reg] = r.I32()
+			s2.Regs[reg] = val()
 		}
 	}
 	ref2 := isa.Exec(c.Prog, s2, 20000, true)
